@@ -2,5 +2,7 @@ pub mod c03;
 pub mod c08;
 pub mod c09;
 pub mod c10;
+pub mod c11;
+pub mod c14;
 pub mod graphs;
 pub mod layout_rustc;
